@@ -1,23 +1,32 @@
 #!/bin/bash
 # Early feedback on a seeded change WITHOUT touching /repo: the .cpp files the patch changes are patched in a scratch copy and
-# shadow their archive members in a private harness build (like tools/mutant.sh). Patches that change headers need the real
-# route (git -C /repo apply; ./check <ID> quick; git -C /repo checkout -- .) and are refused here.
-#   tools/seed_try.sh <name> <patch.diff> <PROP> [verifsim run args...]      env: ENGINES (default: that property's engine file(s)), JOBS
+# shadow their archive members in a private harness build (like tools/mutant.sh); patched headers go into a shadow include
+# directory in front of /repo/src, and the /repo .cpp files named in $CPPS (those that use the header) are compiled privately too.
+# The sanctioned route (git -C /repo apply; ./check <ID> quick; git -C /repo checkout -- .) is run once the tree is quiet.
+#   tools/seed_try.sh <name> <patch.diff> <PROP> [verifsim run args...]
+#   env: ENGINES (default: that property's engine file(s)), JOBS, CPPS="validation.cpp node/miner.cpp" (repo-relative to src/)
 set -u
 NAME=$1; PATCH=$2; PROP=$3; shift 3
 D=/tmp/seedtry_$NAME
 rm -rf $D; mkdir -p $D/tree
 FILES=$(git -C /repo apply --numstat $PATCH | awk '{print $3}')
+HAVE_HDR=0
 for f in $FILES; do
   case $f in
-    *.cpp) ;;
-    *) echo "SEEDTRY $NAME: patch changes $f (not a .cpp): use the /repo route"; rm -rf $D; exit 5;;
+    src/*.cpp) ;;
+    src/*.h) HAVE_HDR=1 ;;
+    *) echo "SEEDTRY $NAME: patch changes $f: use the /repo route"; rm -rf $D; exit 5;;
   esac
   mkdir -p $D/tree/$(dirname $f); cp /repo/$f $D/tree/$f
 done
+if [ $HAVE_HDR = 1 ] && [ -z "${CPPS:-}" ]; then echo "SEEDTRY $NAME: patch changes a header: name the /repo sources to recompile in CPPS"; rm -rf $D; exit 5; fi
 (cd $D/tree && patch -s -p1 < $PATCH) || { echo "SEEDTRY $NAME: patch failed"; exit 4; }
 EXTRA=""; INC=""
-for f in $FILES; do EXTRA="$EXTRA $D/tree/$f"; INC="$INC -I/repo/$(dirname $f)"; done
+[ $HAVE_HDR = 1 ] && INC="-I$D/tree/src"
+for f in $FILES; do case $f in *.cpp) EXTRA="$EXTRA $D/tree/$f"; INC="$INC -I/repo/$(dirname $f)";; esac; done
+for c in ${CPPS:-}; do
+  case " $FILES " in *" src/$c "*) ;; *) mkdir -p $D/tree/src/$(dirname $c); cp /repo/src/$c $D/tree/src/$c; EXTRA="$EXTRA $D/tree/src/$c"; INC="$INC -I/repo/src/$(dirname $c)";; esac
+done
 ENG=${ENGINES:-$(grep -l "\"$PROP\"" /verif/src/engines/*.cpp | tr '\n' ' ')}
 make -C /verif -j${JOBS:-6} ENGINES="$ENG" OBJ=/verif/build/obj_st_$NAME BIN=/verif/build/verifsim_st_$NAME EXTRA_SRCS="$EXTRA" CPPFLAGS_EXTRA="$INC" > $D/build.log 2>&1 || { echo "SEEDTRY $NAME: build failed"; tail -20 $D/build.log; exit 4; }
 mkdir -p $D/out/replays $D/out/evidence; cp /verif/known_findings.txt $D/out/
